@@ -176,7 +176,11 @@ func DriveMain(propID, tier string, seed uint64, root, bin string) int {
 				cmd := exec.Command(bin, args...)
 				logf, _ := os.OpenFile(filepath.Join(dir, fmt.Sprintf("shard-%d.log", k)), os.O_CREATE|os.O_APPEND|os.O_WRONLY, 0o644)
 				cmd.Stdout, cmd.Stderr = logf, logf
-				cmd.Env = append(os.Environ(), "GOMAXPROCS=2",
+				gmp := 2
+				if p.GoMaxProcs > 0 {
+					gmp = p.GoMaxProcs
+				}
+				cmd.Env = append(os.Environ(), fmt.Sprintf("GOMAXPROCS=%d", gmp),
 					"GORACE=halt_on_error=0 log_path="+filepath.Join(dir, fmt.Sprintf("race-%d", k)))
 				err := cmd.Run()
 				logf.Close()
